@@ -13,7 +13,7 @@ From BB Require Import BN Brute SpaceFacts TrapFacts PercolateFacts AttractorFac
   Strict PetriNet Control Meta FilterFacts PetriNetFacts TrappistFacts DiagramStruct DiagramSem1 DiagramCache
   DiagramDepth DiagramComplete Termination ControlFacts MetaFacts Candidates StrictFacts MinExpandFacts CandidatesFacts SymbolicTest SymbolicTestFacts Signed ReductionFacts ControlFacts2 Main Blocks BlocksFacts ObsFacts OwnerFacts CandidatesTerm
   PartialOwner BlockMath BlockComplete ASeeds ASeedsFacts LogChecks SkipRule SkipRuleFacts Names NamesFacts Perm PermFacts SCC SCCFacts SCCStruct ControlFacts3 SCCTerm FilterSym Main2 StrategyFacts ControlFacts4 SkipRuleFacts2 SCCComplete SCCAttr BlockComplete2 ControlFacts5 Iso SkipSem ControlFacts6.
-From BB Require Import PyLib PyLibSd PySrcSdBase PySrcSd PySrcSdFacts PyLibCore PySrcCore PySrcCoreFacts PyLibCore2 PySrcCore2 PySrcCore2Facts PySrcInitFacts.
+From BB Require Import PyLib PyLibSd PySrcSdBase PySrcSd PySrcSdFacts PyLibCore PySrcCore PySrcCoreFacts PyLibCore2 PySrcCore2 PySrcCore2Facts PySrcInitFacts PySrcEndToEnd.
 
 (* translator tie: the function GENERATED from the current text of SuccessionDiagram._expand_one_node (PySrcCore.v; embedding PyLibCore.v) computes Diagram.expand_one for every diagram satisfying the class invariant CoreInv, every oracle for the percolated-net cache, and preserves CoreInv *)
 Theorem C02_source_expand_one_node : forall (fuel : nat) (N : net) (cfg : config) (pnc : nat -> bool) (w : pyst) (i : nat), CoreInv N w -> i < size (p_sd w) -> 1 <= max_motifs cfg -> S (size (fst (expand_one N cfg (p_sd w) i))) < fuel -> exists w' : pyst, p_sd w' = fst (expand_one N cfg (p_sd w) i) /\ CoreInv N w' /\ match snd (expand_one N cfg (p_sd w) i) with | RUnit => py_expand_one_node fuel N cfg pnc w i = CRet w' Datatypes.tt \/ py_expand_one_node fuel N cfg pnc w i = CNext w' Datatypes.tt | RBool b => py_expand_one_node fuel N cfg pnc w i = CRaise w' (RBool b) | RNat k => py_expand_one_node fuel N cfg pnc w i = CRaise w' (RNat k) | RIds l => py_expand_one_node fuel N cfg pnc w i = CRaise w' (RIds l) | RRaised e => py_expand_one_node fuel N cfg pnc w i = CRaise w' (RRaised e) | RFuel => py_expand_one_node fuel N cfg pnc w i = CRaise w' RFuel end.
@@ -25,6 +25,13 @@ Proof. exact py_ensure_node_spec. Qed.
 
 Theorem C02_source_class_invariant_initially : forall N0 : net, exists idx : list (N * nat), CoreInv N0 {| p_sd := init N0; p_idx := idx |}.
 Proof. exact init_CoreInv. Qed.
+
+(* C02 for the SOURCE TEXT: the object built by the generated __init__ and expanded by the generated public expand_bfs (reporting completion) is the hierarchy of percolated trap spaces *)
+Theorem C02_source_text_end_to_end_bfs : forall (fuel : nat) (N : net) (cfg : config) (pnc : nat -> bool) (w : pyst) (d' : sd), 1 <= max_motifs cfg -> 0 < fuel -> py_init fuel N cfg pnc = CNext w Datatypes.tt -> py_api_expand_bfs fuel N cfg (p_sd w) None None None = (d', RBool true) -> Hierarchy N d'.
+Proof. exact py_init_then_expand_bfs_hierarchy. Qed.
+
+Theorem C02_source_text_end_to_end_dfs : forall (fuel : nat) (N : net) (cfg : config) (pnc : nat -> bool) (w : pyst) (d' : sd), 1 <= max_motifs cfg -> 0 < fuel -> py_init fuel N cfg pnc = CNext w Datatypes.tt -> py_api_expand_dfs fuel N cfg (p_sd w) None None None = (d', RBool true) -> Hierarchy N d'.
+Proof. exact py_init_then_expand_dfs_hierarchy. Qed.
 
 (* translator tie: SuccessionDiagram.__init__ as generated from the source builds the model's initial diagram (root = percolation of the whole space) and establishes the class invariant *)
 Theorem C02_source_init : forall (fuel : nat) (N : net) (cfg : config) (pnc : nat -> bool), 0 < fuel -> exists w : pyst, py_init fuel N cfg pnc = CNext w Datatypes.tt /\ p_sd w = init N /\ CoreInv N w.
@@ -84,6 +91,8 @@ Proof. eexists. split. vm_compute. reflexivity. vm_compute. reflexivity. Qed.
 Print Assumptions C02_source_expand_one_node.
 Print Assumptions C02_source_ensure_node.
 Print Assumptions C02_source_class_invariant_initially.
+Print Assumptions C02_source_text_end_to_end_bfs.
+Print Assumptions C02_source_text_end_to_end_dfs.
 Print Assumptions C02_source_init.
 Print Assumptions C02_source_expand_bfs.
 Print Assumptions C02_source_expand_dfs.
